@@ -925,3 +925,25 @@ def gen_C11(rng, count, tier):
             else:
                 evs.append(fuzz_api(rng))
         yield ("sock", " ".join(react + evs))
+
+
+# ------------------------------------------------------------------------------------ C20
+
+def gen_C20(rng, count, tier):
+    hello = bytes.fromhex("16030100c8010000c40303") + bytes(range(32)) + b"\x00\x00\x02\x13\x01\x01\x00"
+    for i in range(count):
+        mode = "tls" if rng.random() < 0.75 else "plain"
+        k = rng.randrange(10)
+        if k < 5:
+            # clear-text clients
+            req = pick(rng, [b"GET / HTTP/1.1\r\n\r\n", b"GET /secret HTTP/1.1\r\nHost: x\r\n\r\n", b"POST /a HTTP/1.0\r\nContent-Length: 3\r\n\r\nabc",
+                             b"", b"\r\n\r\n", b"GET", hello, hello[:rng.randrange(1, len(hello))], bytes(rng.randrange(256) for _ in range(rng.randrange(1, 60))),
+                             b"\x16\x03\x01" + b"GET / HTTP/1.1\r\n\r\n", b"BAD\r\n\r\n"])
+            if rng.random() < 0.2 and req:
+                j = rng.randrange(len(req)); req = req[:j] + bytes([req[j] ^ (1 << rng.randrange(8))]) + req[j + 1:]
+            yield ("tls", "%s raw:%s" % (mode, hx(req)))
+        else:
+            t = "/" + "/".join(pick(rng, ["a", "b%20c", "x", ""]) for _ in range(rng.randrange(0, 3)))
+            if rng.random() < 0.3:
+                t += "?q=1"
+            yield ("tls", "%s ssl:%s" % (mode, hx(t.encode())))
